@@ -25,7 +25,12 @@ impl Rng {
 
 /// Runs `f` on every non-empty, non-comment stdin line; a panic inside `f` prints `PANIC`.
 pub fn for_each_case<F: FnMut(&str) -> String>(mut f: F) {
-	panic::set_hook(Box::new(|_| {}));
+	panic::set_hook(Box::new(|info| {
+		// silent by default (a panic is reported as the result `PANIC`); set VERIF_PANIC_MSG to see it
+		if std::env::var("VERIF_PANIC_MSG").is_ok() {
+			eprintln!("{}", info);
+		}
+	}));
 	let stdin = io::stdin();
 	let stdout = io::stdout();
 	let mut out = io::BufWriter::new(stdout.lock());
